@@ -166,4 +166,7 @@ def check(ctx) -> Result:
             res.bad("J3-seed-passed", qn, f.site(calls[0]), f.qualname, "the generator is not built from the validated seed: results are not reproducible / an invalid seed is not rejected", construct=";".join(src(c) for c in calls)[:160])
         else:
             res.frozen(False, "J3-seed-passed", qn, f.site(calls[0]), f.qualname, "", "how the seed reaches the generator is not recognised", construct=";".join(src(c) for c in calls)[:160])
+    from ..rules import rz_falsy
+    nz = rz_falsy.none_checks(ctx, res, "C18", ())
+    res.floor("Z functions scanned", nz, 3)
     return res
